@@ -39,6 +39,7 @@ CONSTANTS
   Journal,        \* nodes keep a file journal (and can be crashed / restarted)
   DumpFile,       \* nodes keep their snapshot in a dump file (else in memory)
   Fork,           \* the dump file is written by a forked child process (useFork) while the node goes on
+  UserSer,        \* the dump is written / read through user-supplied serializer functions (the library's own state is not in it)
   QuietCids,      \* ids of commands submitted during a quiet period (C05: they must succeed)
   VersionedCids,  \* ids of calls to a method that exists in several code versions
   Raisers,        \* ids of regular commands whose replicated method raises when executed (on every replica)
